@@ -284,7 +284,7 @@ func init() {
 	register(&Prop{
 		ID: "C29", Title: "Bounding box and SVG viewport enclose everything drawn",
 		Patterns:    []string{"./d2target", "./d2renderers/d2svg", "./lib/geo", "./lib/label"},
-		Explanation: "Decides: (1) the bounds reported by d2target (Diagram.BoundingBox, NestedBoundingBox and helpers) and used by d2svg are running minima/maxima updated only with min/max of themselves, in one direction each, with terms of their own axis, and never overwritten inside the accumulating loops; (2) axis consistency of every term fed to them and of d2svg's viewport arithmetic; (3) NestedBoundingBox folds over all three board lists (layers, scenarios, steps) with all four bounds; (4) the viewport of d2svg is the bounding box moved out by the same padding on both sides of each axis (left = x − pad, width = extent + 2·pad, likewise vertically).; the loops of BoundingBox and NestedBoundingBox over shapes, connections, route points and nested boards skip nothing (no continue, break or return in them).",
+		Explanation: "Decides: (1) the bounds reported by d2target (Diagram.BoundingBox, NestedBoundingBox and helpers) and used by d2svg are running minima/maxima updated only with min/max of themselves, in one direction each, with terms of their own axis, and never overwritten inside the accumulating loops; (2) axis consistency of every term fed to them and of d2svg's viewport arithmetic; (3) NestedBoundingBox folds over all three board lists (layers, scenarios, steps) with all four bounds; (4) the viewport of d2svg is the bounding box moved out by the same padding on both sides of each axis (left = x − pad, width = extent + 2·pad, likewise vertically).; the loops of BoundingBox and NestedBoundingBox over shapes, connections, route points and nested boards skip nothing (no continue, break or return in them). Also: the style flags under which d2svg.drawShape enlarges the box an outside label is placed against are the flags under which Diagram.BoundingBox moves the label or enlarges its box, and every optional part of a connection that d2svg.drawConnection draws when present (label, arrowhead labels, icon) is mentioned by BoundingBox.",
 		NotCovered:  geomNotCovered + "; that every drawn element is among the terms fed to the bounds (drawing code and bounds code are separate)",
 		Technique:   "static analysis: monotone-accumulator check, name-typed axis inference, linear-form check of the viewport",
 		Run:         runC29,
